@@ -1080,7 +1080,7 @@ func (f *Facts) summaryOf(g *ssa.Function, depth int) *calleeSummary {
 	}
 	last := res.At(res.Len() - 1).Type()
 	isErr := isErrorTypeT(last)
-	isBool := last.String() == "bool" && res.Len() == 1
+	isBool := last.String() == "bool" // (possibly the last of several results: `data, ok := f()`)
 	if !isErr && !isBool {
 		s.ambiguous = true
 		return s
@@ -1242,6 +1242,16 @@ func (f *Facts) expandAtomsDepth(atoms []Atom, depth int) []Atom {
 				call = nil
 			}
 			success = !a.Neg
+		case a.Op == "TRUE":
+			// the boolean that is the last of several results of a module call: `data, ok := f(x); if !ok {...}`
+			if ex, isE := stripNot(a.Cond).(*ssa.Extract); isE {
+				if c, isC := ex.Tuple.(*ssa.Call); isC && ex.Index == c.Call.Signature().Results().Len()-1 && ex.Index > 0 {
+					if bt, isB := c.Call.Signature().Results().At(ex.Index).Type().Underlying().(*types.Basic); isB && bt.Kind() == types.Bool {
+						call = c
+						success = !a.Neg
+					}
+				}
+			}
 		case strings.HasPrefix(a.Op, "CALL:"):
 			v := a.Cond
 			for {
